@@ -21,7 +21,11 @@ SPEC = {
             "exposed type; postfix: prvalue of the exposed type - decided by type traits at run time, never a build failure), "
             "chained use of the result as an lvalue ((w op1= a) op2= b and auto&& r = (w op1= a); r op2= b over all 10x10 / 4x4 "
             "operator pairs) against the same chain on the native type, and every operator result consumed as __int128 / long double "
-            "without narrowing first (all 2^16 values of the 16-bit wrappers through ++/--, boundary + seeded values otherwise).",
+            "without narrowing first (all 2^16 values of the 16-bit wrappers through ++/--, boundary + seeded values otherwise). Round 5 (part "
+            "optypes): every compound operator with right operands of type int, unsigned, long, unsigned long (size_t/uint64_t), long long, "
+            "unsigned long long, uint8_t, int8_t, uint16_t, float, double and the wrappers be_uint16_t, le_int64_t, re_uint32_t, le_double "
+            "(where the native expression is well-formed and defined), plus the complete shift matrix: 14 left operands of both signs x every "
+            "count 0..width(promoted T)-1 x every integral count type x <<=/>>=; reference = the native expression with the same operand types.",
     "level_text": "Exhaustive on the 8/16/24-bit spaces (and on all 2^32 patterns in the thorough tier); dense boundary-biased sampling, "
                   "not symbolic reasoning, on 48/64-bit values and on operator/operand pairs: a defect confined to a 64-bit value "
                   "without lane or boundary structure would be missed.",
@@ -43,6 +47,12 @@ SPEC = {
         + ["%s:chain:%s" % (w, op) for w in _WRAPPERS if not w.endswith(("float", "double"))
            for op in ("%=", "&=", "|=", "^=", "<<=", ">>=")]
         + ["%s:wide:%s" % (w, op) for w in _WRAPPERS for op in ("pre++", "pre--", "post++", "post--", "=")]
+        + ["%s:operand:%s" % (t, r) for t in ("uint16_t", "int16_t", "uint32_t", "int32_t", "uint64_t", "int64_t", "float", "double")
+           for r in ("int", "unsigned", "long", "unsigned long", "long long", "unsigned long long", "uint8_t", "int8_t", "uint16_t",
+                     "float", "double", "be_uint16_t", "le_int64_t", "re_uint32_t", "le_double")]
+        + ["%s:shift-matrix:%s" % (t, r) for t in ("uint16_t", "int16_t", "uint32_t", "int32_t", "uint64_t", "int64_t")
+           for r in ("int", "unsigned", "long", "unsigned long", "long long", "unsigned long long", "uint8_t", "int8_t", "uint16_t",
+                     "be_uint16_t", "le_int64_t", "re_uint32_t")]
         + ["bswap8:exhaustive", "bswap16:exhaustive", "bswap24:exhaustive", "bswap24s:exhaustive", "ext24:exhaustive",
            "bswap32:lanes", "bswap32f:lanes", "bswap48:lanes", "bswap48s:lanes", "ext48:lanes", "bswap64:lanes", "bswap64f:lanes",
            "bswap64:sampled", "ext48:sampled", "sign_extend:uint8_t->int16_t", "sign_extend:int16_t->uint64_t",
